@@ -309,8 +309,18 @@ def ob_ppt_spectral(dA, dB, sys, basis, tol_mode):
     def valid(ni):
         t = tol_of(ni)
         return (tol_mode != "given" or 0 < t <= 1) and all(abs(x) <= 4 and abs(x + t) >= MARGIN * t for x in ni["lam"])
+
+    def witness():
+        out = []
+        for t in ([1e-3, 1e-6, 1e-10] if tol_mode == "given" else [SQRT_EPS]):
+            for c in (0.25, 0.75, 1.5):
+                d = {"lam": [1.0] * (n - 1) + [-c * t]}
+                if tol_mode == "given":
+                    d["tol"] = t
+                out.append(d)
+        return out
     return Obligation("is_ppt.known_spectrum_family_threshold_is_tol", cfg, build, call, oracle, assume=assume, valid=valid,
-                      tv=False, neg=lambda exp: [neg(exp[0]), exp[1]])
+                      tv=False, witness=witness, neg=lambda exp: [neg(exp[0]), exp[1]])
 
 
 # ---- in_separable_ball ----------------------------------------------------------------------------
@@ -369,11 +379,12 @@ def ob_ball(n, form, mode="lra"):
         return {"m": b.array("m", (n,), "r")}
 
     def call(i):
+        sym = is_symbolic(i["m"])
+        # decide the trace test first so that the first explored path is the one that reaches the Frobenius inequality
+        positive = bool(_trace_and_square(i["m"], n)[0] >= n * EPS) if sym else None
         r = in_separable_ball(i["m"])
-        if mode == "lra" and is_symbolic(i["m"]):
-            T, _ = _trace_and_square(i["m"], n)
-            if not (T < n * EPS):
-                return [r, _ball_lemmas(i["m"], n)]
+        if mode == "lra" and sym and positive:
+            return [r, _ball_lemmas(i["m"], n)]
         return [r, []]
 
     def oracle(i):
@@ -517,7 +528,7 @@ def ob_hse_sdp_rule(dA, dB, ppt):
 
     def oracle(i):
         v = _hierarchy_stub([i["rho"]], None, 2, None)
-        return v < 1 - 1e-4
+        return 1 - v > 1e-4
     return Obligation("has_symmetric_extension.otherwise_decided_by_hierarchy_value", cfg, build, call, oracle, tv=False,
                       extra_patch=HSE_PATCH, neg=neg)
 
@@ -598,14 +609,19 @@ def ob_sep_small(dA, dB, dim_form, tol_mode):
         return d
 
     def call(i):
-        return _sep_call(i["rho"], dim_argument(dim_form, dA, dB), i.get("tol"))
-
-    def oracle(i):
-        st = normalised(i["rho"])
+        res = _sep_call(i["rho"], dim_argument(dim_form, dA, dB), i.get("tol"))
         if tol_mode == "given":
             # the PPT criterion as implemented by is_ppt for the same tolerance (its threshold is pinned by the is_ppt obligations)
-            return is_ppt(st, 2, [dA, dB], i["tol"])
-        return all_eigs_at_least(pt_explicit(st, dA, dB, 2), -SEP_TOL)
+            return [res, is_ppt(normalised(i["rho"]), 2, [dA, dB], i["tol"])]
+        return [res, None]
+
+    def oracle(i):
+        if tol_mode == "given":
+            return None
+        return all_eigs_at_least(pt_explicit(normalised(i["rho"]), dA, dB, 2), -SEP_TOL)
+
+    def post(res, exp, i):
+        return eq(res[0], res[1]) if tol_mode == "given" else eq(res[0], exp)
 
     def exc_post(e, i):
         return both(isinstance(e, ValueError), _psd_rejected(i["rho"]))
@@ -626,8 +642,8 @@ def ob_sep_small(dA, dB, dim_form, tol_mode):
                                           for x in eigs_h(pt_explicit(normalised(ni["rho"]), dA, dB, 2)))
     name = "is_separable.small_dimensions_agree_with_ppt_criterion" if tol_mode == "default" else \
         "is_separable.small_dimensions_agree_with_is_ppt_for_the_given_tolerance"
-    return Obligation(name, cfg, build, call, oracle, exc_post=exc_post, assume=assume, valid=valid, tv=False,
-                      extra_patch=SEP_PATCH, neg=neg)
+    return Obligation(name, cfg, build, call, oracle, post=post, exc_post=exc_post, assume=assume, valid=valid, tv=False,
+                      extra_patch=SEP_PATCH, neg=neg, neg_control=tol_mode == "default")
 
 
 def ob_sep_npt(dA, dB, party):
@@ -779,7 +795,7 @@ class ConcreteSeparable(Task):
             tb = traceback.extract_tb(e.__traceback__)
             fr = [f for f in tb if "/toqito/" in f.filename]
             where = f" at {fr[-1].filename.split('/toqito/')[-1]}:{fr[-1].lineno}" if fr else ""
-            return False, {"exception": f"{type(e).__name__}: {str(e)[:160]}{where}", "expected": True}, rho
+            return False, {"exception": f"{type(e).__name__}: {str(e)[:100]}{where}", "expected": True}, rho
         return bool(res) is True, {"actual": bool(res), "expected": True}, rho
 
     def _run(self, rec, seed):
@@ -790,7 +806,7 @@ class ConcreteSeparable(Task):
             rec["status"] = "discharged"
         else:
             rec["status"] = "violation"
-            rec["violation"] = {"source": "concrete instance of the stated family", "inputs": {"rho": jsonable(rho)}, **detail}
+            rec["violation"] = {"source": "concrete instance of the stated family", **detail, "inputs": {"rho": jsonable(rho)}}
 
     def replay(self, rp):
         ok, detail, _ = self._verdict()
@@ -879,11 +895,10 @@ def obligations(tier):
     for dA, dB in [(2, 4), (4, 2), (3, 3)] + ([(3, 4)] if T else []):
         for K in (1, 2):
             for kind in ("r", "c"):
-                if K == 2 and kind == "c" and not T:
+                if kind == "c" and not T and (K == 2 or (dA, dB) == (3, 3)):
                     continue
                 obs.append(ob_sep_mixture(dA, dB, K, kind, "cut"))
     obs.append(ob_sep_mixture(3, 3, 1, "r", "cut", "omitted"))
-    obs.append(ob_sep_mixture(3, 3, 1, "r", "sorted", background=True))
     obs.append(ob_sep_mixture(4, 4, 1, "r", "sorted", background=True))
     obs.append(ob_sep_mixture(4, 4, 1, "r", "cut"))
     obs += concrete_tasks(T)
